@@ -1,6 +1,7 @@
 #!/bin/bash
 # usage: seedrun.sh <seeded dir name> <CHECK ID> [tier]  -- applies the seeded patch to /repo, runs the check, reverts.
 S=$1; ID=$2; TIER=${3:-quick}
+mkdir -p /tmp/seed
 cd /repo || exit 2
 if ! git diff --quiet; then echo "/repo dirty"; exit 2; fi
 git apply /verif/seeded/$S/patch.diff 2>/dev/null || git apply --3way /verif/seeded/$S/patch.diff 2>/dev/null || { echo "$S: PATCH DOES NOT APPLY to current /repo"; git reset -q --hard HEAD; exit 3; }
